@@ -86,6 +86,9 @@ def declare(cls_name, *args):
         return None, ["crash", "%s: %s" % (type(error).__name__, error)]
 
 
+ARABIC_INDIC = {ord("0") + digit: 0x660 + digit for digit in range(10)}
+
+
 # ------------------------------------------------------------------ Integer
 def job_integer(vec):
     problems = []
@@ -119,6 +122,17 @@ def job_integer(vec):
                 problems.append("%s: cell %r is %sed but must be %sed" % (what, text, outcome[0], "accept" if expected else "reject"))
             elif outcome[0] == "accept" and (outcome[1] != probe or type(outcome[1]) is not int):
                 problems.append("%s: cell %r yields %r instead of the integer %d" % (what, text, outcome[1], probe))
+            if outcome[0] == "accept" and expected and probe == vec["probe"]:
+                # single mutations of an accepted cell that Python's int() still reads as the same number: digit grouping with
+                # "_", surrounding white space, digits of another script. None of them is an integer literal of the data.
+                plain = str(probe)
+                mutants = ["\t" + plain, plain + "\n", plain.translate(ARABIC_INDIC)]
+                if len(plain.lstrip("-")) >= 2:
+                    mutants.append(plain[:-1] + "_" + plain[-1])
+                for mutant in mutants:
+                    lenient = validated(field, mutant)
+                    if lenient[0] != "reject":
+                        problems.append("%s: cell %r (no integer literal) is %sed but must be rejected" % (what, mutant, lenient[0]))
     return problems
 
 
@@ -217,7 +231,7 @@ def job_datetime(vec):
 def job_decimal(vec):
     problems = []
     ds, ts = vec["conv"]
-    cell = "".join(vec["cell"])
+    cell = "".join({"tab": "\t", "arabic0": "\u0660"}.get(char, char) for char in vec["cell"])
     rule = items_text(vec["rule"], scale=100)
     expected = vec["expected"]
     variants = [("delimited", {"decimal_separator": ds, "thousands_separator": ts}),
